@@ -281,6 +281,13 @@ func c03Run(c *core.Ctx, i int) {
 	if round == 0 {
 		checkParseResult(c, base.Src, "base")
 	}
+	if i == 0 {
+		// one small program per kind of diagnostic, with keyword and non-ASCII names where names occur
+		for _, src := range c03Diagnostics {
+			c.Event("diagnostic_catalogue_inputs", 1)
+			checkParseResult(c, src, "diagnostic-catalogue")
+		}
+	}
 	// (1) prefixes by token: all of them in the first round (thorough), a sample otherwise
 	if round == 0 {
 		step := 1
@@ -469,4 +476,16 @@ func firstN(s string, n int) string {
 		return s[:n] + "…"
 	}
 	return s
+}
+
+var c03Diagnostics = []string{
+	"m := {a:1 end:2 end:3}\nprint m\n", "m := {num:1 num:2}\n", "m := {a:1 a:2}\n", "m := {größe:1 größe:2}\n", "m := {if:1\n  if:2}\n",
+	"x := {a:1}.end.end\n", "x := {end:1}.end + \"s\"\n", "print {for:[1]}.for[\"a\"]\n", "m := {a:1}\nprint m.while.x\n",
+	"a:[]any\na = {x:[1]}[\"x\"]\nprint a\n", "m:{}any\nm = {k:{n:1}}[\"k\"]\n", "print [{x:[1 2]}[\"x\"] [\"a\"]]\n", "a:[]any\na = {x:[1]}.x\n", "a:[][]any\na = [{x:[[1]]}.x[0]]\n",
+	"func f a:num b:num c:num d:num\n    print a b c d\nend\nf 1 2 3 \"x\"\nf 1 2 3 (f 1 2 3 4)\n", "line 1 2 3 \"x\"\nline 1 2 3 []\n", "func g a:num...\n    print a\nend\ng 1 2 3 \"x\" 5\n",
+	"x := (print 1)\n", "x := [(print 1)]\n", "y:num\ny = (cls)\n", "print (len)\n", "print (len 1 2)\n",
+	"on key k:string k2:string\n    print k\nend\n", "on nothing\n    print 1\nend\n", "on key\n    print 1\nend\non key\n    print 2\nend\n", "on down _:string y:num\n    print y\nend\n",
+	"func f\nend\nfunc f\nend\n", "func print\nend\n", "func f:num\n    print 1\nend\n", "return 1\n", "break\n", "x := 1\nx := 2\n", "for i := range 1 2 3 4\n    print i\nend\n",
+	"x := 1 ++ 2\n", "x := !1\n", "x := -\"a\"\n", "x := [1] + [\"a\"]\n", "x := 1 < \"a\"\n", "x := true and 1\n", "x:any\nprint x.(nothing)\n", "x := 1\nprint x.(num)\n", "x := [1 2][\"a\"]\n", "x := \"abc\"[true:]\n",
+	"print \"unterminated\n", "print 'c'\n", "x := 1 # 2 $ 3 ; 4 ~ 5\n", "x := 1e5\n", "x := 0x10\n", "print \"\\q\"\n", "\tx := 1\n print x\n", "if true\n    print 1\nelse if\n    print 2\nend\n", "while\nend\n", "for\nend\n", "func\n", "on\n", "end\n", "else\n",
 }
